@@ -79,13 +79,21 @@ def gen_case(rng, maxops, nmax, base):
             offs[t] = cand
     pown = rng.choice([0, 0.1, 0.3, 0.6])
     pspw = rng.choice([0.2, 0.5, 0.9]) if targets else 0
+    # temporaries: a destructor allocates an object and deletes it again at once, at the address of an
+    # ordinary object of the case (so: possibly one finalised and released earlier in the same sweep);
+    # such addresses are never deleted by destructors and their own destructor does nothing
+    ptmp = rng.choice([0, 0, 0.3, 0.7]) if len(ids) >= 3 else 0
+    plain = set(rng.sample(ids, max(1, len(ids) // 3))) if ptmp else set()
     objs = []
     for k in allids:
         own, spw = [], []
-        if k in ids and rng.random() < pown:
-            own = [rng.choice(ids) for _ in range(rng.choice([1, 1, 1, 2, 3]))]
-        if k in ids and rng.random() < pspw:
+        if k in ids and k not in plain and rng.random() < pown:
+            own = [rng.choice([x for x in ids if x not in plain] or [k]) for _ in range(rng.choice([1, 1, 1, 2, 3]))]
+        if k in ids and k not in plain and rng.random() < pspw:
             spw = ['%d%s' % (t, rng.choice(['', '', 'r'])) for t in rng.sample(targets, rng.randrange(1, len(targets) + 1))]
+        if k in ids and k not in plain and rng.random() < ptmp:
+            spw += ['%d%st' % (t, rng.choice(['', '', 'r'])) for t in rng.sample(sorted(plain), rng.randrange(1, min(3, len(plain)) + 1))]
+            rng.shuffle(spw)
         objs.append('%d:%d%s%s' % (k, offs[k], (':' + '.'.join(map(str, own))) if own or spw else '',
                                    (':' + '.'.join(spw)) if spw else ''))
     proot = rng.choice([0, 0.1, 0.3, 0.8])
@@ -200,8 +208,10 @@ def exhaustive_cases(base, maxlen=4):
     alpha = ['a0', 'a1', 'a2', 'A1', 'd0', 'd1', 'd2', 'c']
     res = []
     for offs in ([0, 55, 110], [4, 59, 9]):
-        for own in ({}, {0: [1], 1: [0, 2]}, 'spawn'):
-            if own == 'spawn':   # 0's destructor allocates 3 (far above the window) and root 4 (below / colliding)
+        for own in ({}, {0: [1], 1: [0, 2]}, 'spawn', 'temp'):
+            if own == 'temp':    # 2's destructor creates temporaries at the addresses of 0 and 1
+                objs = '0:%d,1:%d,2:%d::0t.1t' % (offs[0], offs[1], offs[2])
+            elif own == 'spawn':   # 0's destructor allocates 3 (far above the window) and root 4 (below / colliding)
                 objs = '0:%d::3.4r,1:%d:0,2:%d,3:%d,4:%d' % (offs[0], offs[1], offs[2], offs[2] + 5500, offs[0] + 25)
             else:
                 objs = ','.join('%d:%d%s' % (k, offs[k], (':' + '.'.join(map(str, own[k]))) if k in own else '') for k in range(3))
@@ -234,8 +244,21 @@ def dtor_sets(case):
         if len(f) > 2 and f[2]:
             owned |= {int(x) for x in f[2].split('.')}
         if len(f) > 3 and f[3]:
-            spawned |= {int(x.rstrip('r')) for x in f[3].split('.')}
+            spawned |= {int(x.rstrip('rt')) for x in f[3].split('.') if 't' not in x}
     return owned, spawned
+
+
+def temp_sets(case):
+    """(addresses some destructor uses for a temporary, ids whose destructor does something)"""
+    objs = case.split('|', 1)[0].split(';', 1)[1]
+    temps, active = set(), set()
+    for o in objs.split(','):
+        f = o.split(':')
+        if (len(f) > 2 and f[2]) or (len(f) > 3 and f[3]):
+            active.add(int(f[0]))
+        if len(f) > 3 and f[3]:
+            temps |= {int(x.rstrip('rt')) for x in f[3].split('.') if 't' in x}
+    return temps, active
 
 
 def admissible(case):
@@ -246,8 +269,9 @@ def admissible(case):
         owned, spawned = dtor_sets(case)
     except Exception:
         return False
-    if owned & spawned or not (owned | spawned) <= set(ids):
-        return False          # hypothesis dtors_ok of the theorems
+    temps, active = temp_sets(case)
+    if owned & (spawned | temps) or not (owned | spawned | temps) <= set(ids) or temps & active:
+        return False          # hypothesis dtors_ok of the theorems; temporaries have no destructor actions
     st, running = {}, True
     for t in ops:
         c = t[0]
@@ -399,8 +423,9 @@ def oracle(case, impl, spec):
 def corr(case, impl, model):
     if impl == model:
         return None
-    if '!' in model:
-        return None      # the model flagged the run as outside its scope (nested collection outside a sweep)
+    if '!' in model or '!' in impl:
+        return None      # flagged as outside the model's scope (nested collection outside a sweep; an address the
+                         # allocator could not / the model would not hand out) - judged by the oracle only
     a, b = impl.split(' | '), model.split(' | ')
     for n, (x, y) in enumerate(zip(a, b)):
         if x != y:
@@ -469,6 +494,10 @@ def corpus(b):
         # window, one colliding with a survivor; then mem, del of the spawned ones
         '0:0::3.4r,1:55,2:110,3:9000,4:165|k1.2 a0 a1 a2 k1 c m3 m4 d3 m3 d4 m4',
         '0:40::3.4r,1:95:0,2:150,3:0,4:7040|k0.1.2 a0 a1 a2 k2 c m3 m4 k c m3 m4',
+        # a destructor allocates a temporary at the address of an object finalised and released EARLIER in
+        # the same sweep, and deletes it again (stale pending slot must not catch the deletion)
+        '0:0,1:6::0t,2:12|k0.1.2 a0 a1 a2 k2 c m0 m1 k c',
+        '0:0,1:6,2:12::0t.1rt,3:18|k0.1.2.3 a0 a1 a2 a3 k3 c m0 m1 m2 k c',
         # ... and from a destructor run by an explicit del (no sweep in progress)
         '0:0:1:3,1:55,3:165|k0.1 a0 a1 d0 m3 m1 d3 m3',
         # growth past 5 and 11 slots with roots, then shrink back
@@ -484,7 +513,8 @@ def run(ctx):
         'so that all homes coincide modulo every registry size, homes at the last slots (wrap-around), two homes, dense, small, mixed; '
         'objects own other objects (their destructor issues del: removals during a sweep or during another removal, cycles allowed) and/or '
         'allocate managed/root objects from their destructor (GC_Set while a sweep runs or inside a removal; addresses outside the current [minptr,maxptr] '
-        'and colliding with survivors; never an address a destructor deletes); '
+        'and colliding with survivors; never an address a destructor deletes), or create temporaries (allocate + delete at once) at the address of '
+        'another object of the case, e.g. one finalised and released earlier in the same sweep; '
         'threshold collections fire by themselves (the first allocation already does); generator rule: an address is re-allocated only after a '
         'top-level del/del_raw of it. A case is non-trivial when an entry sits away from its home slot, or a destructor issued a removal, or the '
         'registry shrank by rehashing; distinct = distinct implementation transcripts' % (60 if quick else 420, 130 if quick else 1500))
@@ -573,7 +603,7 @@ def run(ctx):
         for i in range(0, len(ex), 2000):
             d.feed(ex[i:i + 2000])
         ctx.cov['exhaustive'] = ('all %d admissible sequences of <= %d operations over {a0,a1,a2,A1,d0,d1,d2,c} x stack words {none, 0, all} '
-                                 'x 2 address patterns x 3 destructor behaviours (none, deleting, allocating)' % (len(ex), 3 if quick else 4))
+                                 'x 2 address patterns x 4 destructor behaviours (none, deleting, allocating, temporaries)' % (len(ex), 3 if quick else 4))
 
     def extra(dd):
         dd.feed([gen_case(ctx.rng, 60, 20, base) for _ in range(10 * min(n, 2000))])
